@@ -8,6 +8,8 @@ import OdlModel.Model.Lincomb
 import OdlModel.Gen.LincombTree
 import Mathlib.Tactic.Ring
 import Mathlib.Tactic.LinearCombination
+import Mathlib.Tactic.FieldSimp
+import OdlModel.Model.ElemOps
 
 namespace OdlModel.C01
 open OdlModel.Lincomb OdlModel.Gen.Lincomb
@@ -17,9 +19,16 @@ every buffer other than `out` is untouched. -/
 def Spec {K : Type} [CommRing K] (A : Args) (a b : K) (m m' : Mem K) : Prop :=
   (∀ i, m' A.out i = a * m A.x1 i + b * m A.x2 i) ∧ (∀ buf, buf ≠ A.out → m' buf = m buf)
 
+/-- What the element layer assumes about a space's `_lincomb`: it satisfies `Spec` for
+every aliasing pattern. For tensor spaces this is `C01.lincomb_correct` (see
+`C01.tensor_lincomb_spec`); product spaces inherit it component-wise
+(`C01.plincomb_correct`). -/
+def LCSpec {K : Type} [CommRing K] (lc : OdlModel.ElemOps.LC K) : Prop :=
+  ∀ A a b m, ∃ m', lc A a b m = some m' ∧ Spec A a b m m'
+
 end OdlModel.C01
 
-open OdlModel.Lincomb OdlModel.Gen.Lincomb OdlModel.C01
+open OdlModel.Lincomb OdlModel.Gen.Lincomb OdlModel.C01 OdlModel.ElemOps
 
 /-- The extracted dispatch program is correct for either axpy form (guarded or BLAS),
 all alias patterns, all scalars, all contents; recursion depth 3 suffices. -/
@@ -85,3 +94,210 @@ example : ∃ m', lincombImpl thrSmall thrMedium fbGuard prog 100 false ⟨0, 0,
     (fun _ i => (i : Int)) = some m' ∧ m' 0 5 = 0 := by
   obtain ⟨m', h, s, _⟩ := C01.lincomb_correct (K := Int) 100 false ⟨0, 0, 0⟩ 2 (-2) (fun _ i => (i : Int))
   exact ⟨m', h, by rw [s]; simp⟩
+
+/-! ## Element-level arithmetic (`odl/set/space.py`) on top of a correct `_lincomb` -/
+
+/-- The tensor-space `_lincomb` (extracted program, any size/regime) satisfies `LCSpec`. -/
+theorem C01.tensor_lincomb_spec {K : Type} [CommRing K] [DecidableEq K] (size : Nat) (blasOk : Bool) :
+    LCSpec (K := K) (fun A a b m => lincombImpl thrSmall thrMedium fbGuard prog size blasOk A a b m) :=
+  fun A a b m => C01.lincomb_correct size blasOk A a b m
+
+section
+variable {K : Type} [Field K]
+
+/-- `space.lincomb(a, x, out=out)` (the `b is None` form) yields `a*x`. -/
+theorem C01.lincomb1_ok (lc : LC K) (h : LCSpec lc) (a : K) (x out : Nat) (m : Mem K) :
+    ∃ m', lincomb1 lc a x out m = some m' ∧ (∀ i, m' out i = a * m x i) ∧
+      ∀ buf, buf ≠ out → m' buf = m buf := by
+  obtain ⟨m', e, s1, s2⟩ := h ⟨x, x, out⟩ a 0 m
+  exact ⟨m', e, fun i => by rw [s1 i]; simp, s2⟩
+
+theorem C01.elem_op_correct (lc : LC K) (h : LCSpec lc) (op : Op) (x y t : Nat) (c : K) (m : Mem K)
+    (hx : t ≠ x) (hy : t ≠ y) :
+    ∃ m' r, op.exec lc x y t c m = some (m', r) ∧ r = (if op.inPlace then x else t) ∧
+      (∀ i, m' r i = op.spec c (m x i) (m y i)) ∧
+      (∀ buf, buf ≠ r → buf ≠ t → m' buf = m buf) := by
+  have hx' : x ≠ t := Ne.symm hx
+  have hy' : y ≠ t := Ne.symm hy
+  cases op
+  case addE =>
+    obtain ⟨m', e, s1, s2⟩ := h ⟨x, y, t⟩ 1 1 m
+    exact ⟨m', t, by simp [Op.exec, e], by simp [Op.inPlace], by simpa [Op.spec] using s1, fun b hb _ => s2 b hb⟩
+  case subE =>
+    obtain ⟨m', e, s1, s2⟩ := h ⟨x, y, t⟩ 1 (-1) m
+    exact ⟨m', t, by simp [Op.exec, e], by simp [Op.inPlace], by simpa [Op.spec] using s1, fun b hb _ => s2 b hb⟩
+  case mulE =>
+    exact ⟨_, t, rfl, by simp [Op.inPlace], by simp [Op.spec, multiply, Mem.write], fun b hb _ => by simp [multiply, Mem.write, hb]⟩
+  case divE =>
+    exact ⟨_, t, rfl, by simp [Op.inPlace], by simp [Op.spec, divide, Mem.write], fun b hb _ => by simp [divide, Mem.write, hb]⟩
+  case addS =>
+    obtain ⟨m', e, s1, s2⟩ := h ⟨x, t, t⟩ 1 c (one t m)
+    refine ⟨m', t, by simp [Op.exec, e], by simp [Op.inPlace], ?_, ?_⟩
+    · intro i; have := s1 i; simp [one, Mem.write, hx'] at this; simp [Op.spec, this]
+    · intro b hb _; have := s2 b hb; simp [one, Mem.write, hb] at this; exact this
+  case subS =>
+    obtain ⟨m', e, s1, s2⟩ := h ⟨x, t, t⟩ 1 (-c) (one t m)
+    refine ⟨m', t, by simp [Op.exec, e], by simp [Op.inPlace], ?_, ?_⟩
+    · intro i; have := s1 i; simp [one, Mem.write, hx'] at this; simp [Op.spec, this]
+    · intro b hb _; have := s2 b hb; simp [one, Mem.write, hb] at this; exact this
+  case rsubS =>
+    obtain ⟨m1, e1, s1, f1⟩ := C01.lincomb1_ok lc h c t t (one t m)
+    obtain ⟨m', e, s2, f2⟩ := h ⟨t, x, t⟩ 1 (-1) m1
+    refine ⟨m', t, by simp [Op.exec, e1, e], by simp [Op.inPlace], ?_, ?_⟩
+    · intro i; have := s2 i; simp only [] at this
+      rw [this, s1 i, f1 x hx']; simp [one, Mem.write, hx', Op.spec]
+    · intro b hb _; rw [f2 b hb, f1 b hb]; simp [one, Mem.write, hb]
+  case mulS =>
+    obtain ⟨m', e, s1, f1⟩ := C01.lincomb1_ok lc h c x t m
+    exact ⟨m', t, by simp [Op.exec, e], by simp [Op.inPlace], by simpa [Op.spec] using s1, fun b hb _ => f1 b hb⟩
+  case divS =>
+    obtain ⟨m', e, s1, f1⟩ := C01.lincomb1_ok lc h (1 / c) x t m
+    exact ⟨m', t, by simp only [Op.exec, e, Option.map_some], by simp [Op.inPlace], by simpa [Op.spec] using s1, fun b hb _ => f1 b hb⟩
+  case rdivS =>
+    obtain ⟨m1, e1, s1, f1⟩ := C01.lincomb1_ok lc h c t t (one t m)
+    refine ⟨divide t x t m1, t, by simp [Op.exec, e1], by simp [Op.inPlace], ?_, ?_⟩
+    · intro i; simp [divide, Mem.write, s1 i, f1 x hx', one, hx', Op.spec]
+    · intro b hb _; simp [divide, Mem.write, hb, f1 b hb, one]
+  case iaddE =>
+    obtain ⟨m', e, s1, s2⟩ := h ⟨x, y, x⟩ 1 1 m
+    exact ⟨m', x, by simp [Op.exec, e], by simp [Op.inPlace], by simpa [Op.spec] using s1, fun b hb _ => s2 b hb⟩
+  case isubE =>
+    obtain ⟨m', e, s1, s2⟩ := h ⟨x, y, x⟩ 1 (-1) m
+    exact ⟨m', x, by simp [Op.exec, e], by simp [Op.inPlace], by simpa [Op.spec] using s1, fun b hb _ => s2 b hb⟩
+  case imulE =>
+    exact ⟨_, x, rfl, by simp [Op.inPlace], by simp [Op.spec, multiply, Mem.write], fun b hb _ => by simp [multiply, Mem.write, hb]⟩
+  case idivE =>
+    exact ⟨_, x, rfl, by simp [Op.inPlace], by simp [Op.spec, divide, Mem.write], fun b hb _ => by simp [divide, Mem.write, hb]⟩
+  case iaddS =>
+    obtain ⟨m', e, s1, s2⟩ := h ⟨x, t, x⟩ 1 c (one t m)
+    refine ⟨m', x, by simp [Op.exec, e], by simp [Op.inPlace], ?_, ?_⟩
+    · intro i; have := s1 i; simp [one, Mem.write, hx'] at this; simp [Op.spec, this]
+    · intro b hb hbt; have := s2 b hb; simp [one, Mem.write, hbt] at this; exact this
+  case isubS =>
+    obtain ⟨m', e, s1, s2⟩ := h ⟨x, t, x⟩ 1 (-c) (one t m)
+    refine ⟨m', x, by simp [Op.exec, e], by simp [Op.inPlace], ?_, ?_⟩
+    · intro i; have := s1 i; simp [one, Mem.write, hx'] at this; simp [Op.spec, this]
+    · intro b hb hbt; have := s2 b hb; simp [one, Mem.write, hbt] at this; exact this
+  case imulS =>
+    obtain ⟨m', e, s1, f1⟩ := C01.lincomb1_ok lc h c x x m
+    exact ⟨m', x, by simp [Op.exec, e], by simp [Op.inPlace], by simpa [Op.spec] using s1, fun b hb _ => f1 b hb⟩
+  case idivS =>
+    obtain ⟨m', e, s1, f1⟩ := C01.lincomb1_ok lc h (1 / c) x x m
+    exact ⟨m', x, by simp only [Op.exec, e, Option.map_some], by simp [Op.inPlace], by simpa [Op.spec] using s1, fun b hb _ => f1 b hb⟩
+  case neg =>
+    obtain ⟨m', e, s1, f1⟩ := C01.lincomb1_ok lc h (-1) x t m
+    exact ⟨m', t, by simp [Op.exec, e], by simp [Op.inPlace], by simpa [Op.spec] using s1, fun b hb _ => f1 b hb⟩
+  case pos =>
+    obtain ⟨m', e, s1, f1⟩ := C01.lincomb1_ok lc h 1 x t m
+    exact ⟨m', t, by simp [Op.exec, e], by simp [Op.inPlace], by simpa [Op.spec] using s1, fun b hb _ => f1 b hb⟩
+  case setZero =>
+    obtain ⟨m', e, s1, s2⟩ := h ⟨x, x, x⟩ 0 0 m
+    exact ⟨m', x, by simp [Op.exec, e], by simp [Op.inPlace], by simpa [Op.spec] using s1, fun b hb _ => s2 b hb⟩
+  case assign =>
+    obtain ⟨m', e, s1, f1⟩ := C01.lincomb1_ok lc h 1 y x m
+    exact ⟨m', x, by simp [Op.exec, e], by simp [Op.inPlace], by simpa [Op.spec] using s1, fun b hb _ => f1 b hb⟩
+
+theorem C01.mulLoop_ok (x t : Nat) (hx : t ≠ x) (k : Nat) (m : Mem K) :
+    (∀ i, mulLoop x t k m t i = m t i * (m x i) ^ k) ∧
+    (∀ buf, buf ≠ t → mulLoop x t k m buf = m buf) := by
+  induction k generalizing m with
+  | zero => simp [mulLoop]
+  | succ k ih =>
+    obtain ⟨h1, h2⟩ := ih (multiply x t t m)
+    refine ⟨fun i => ?_, fun b hb => ?_⟩
+    · simp only [mulLoop]; rw [h1 i]; simp [multiply, Mem.write, Ne.symm hx]; ring
+    · simp only [mulLoop]; rw [h2 b hb]; simp [multiply, Mem.write, hb]
+
+theorem C01.ipow_correct (lc : LC K) (h : LCSpec lc) (x t : Nat) (hx : t ≠ x) (p : Nat) (m : Mem K) :
+    ∃ m', ipow lc x t p m = some m' ∧ (∀ i, m' x i = (m x i) ^ p) ∧
+      (∀ buf, buf ≠ x → buf ≠ t → m' buf = m buf) := by
+  induction p using Nat.strong_induction_on generalizing m with
+  | _ p ih =>
+    unfold ipow
+    split_ifs with h0 h1 h2
+    · obtain ⟨m', e, s1, f1⟩ := C01.lincomb1_ok lc h 1 t x (one t m)
+      refine ⟨m', e, fun i => ?_, fun b hb hbt => ?_⟩
+      · rw [s1 i, h0]; simp [one, Mem.write]
+      · rw [f1 b hb]; simp [one, Mem.write, hbt]
+    · exact ⟨m, rfl, fun i => by simp [h1], fun _ _ _ => rfl⟩
+    · obtain ⟨m', e, s1, f1⟩ := ih (p / 2) (by omega) (multiply x x x m)
+      refine ⟨m', e, fun i => ?_, fun b hb hbt => ?_⟩
+      · rw [s1 i]; simp only [multiply, Mem.write, if_true]
+        rw [← pow_two, ← pow_mul]; congr 1; omega
+      · rw [f1 b hb hbt]; simp [multiply, Mem.write, hb]
+    · obtain ⟨m1, e1, s1, f1⟩ := C01.lincomb1_ok lc h 1 x t m
+      obtain ⟨l1, l2⟩ := C01.mulLoop_ok (K := K) x t hx (p - 2) m1
+      refine ⟨multiply t x x (mulLoop x t (p - 2) m1), by simp [e1], fun i => ?_, fun b hb hbt => ?_⟩
+      · simp only [multiply, Mem.write, if_true]
+        rw [l1 i, l2 x (Ne.symm hx), s1 i, f1 x (Ne.symm hx)]
+        have : p = (p - 2) + 2 := by omega
+        conv_rhs => rw [this]
+        ring
+      · simp only [multiply, Mem.write, hb, if_false]
+        rw [l2 b hbt, f1 b hbt]
+
+end
+
+/-! ## Product spaces: `ProductSpace._lincomb` is component-wise -/
+
+section
+variable {K : Type} [CommRing K]
+
+/-- For product-space elements given by the buffer ids of their leaf parts: if the parts of
+`out` are pairwise distinct objects and part `i` of `out` is not part `j ≠ i` of an operand
+(true for identity aliasing, where aliased elements have equal part lists), then
+`ProductSpace._lincomb` yields `a*x + b*y` on every part and touches nothing else —
+whatever the aliasing between `x`, `y` and `out`. By induction over the component list,
+so for any number of components and any nesting (flattened to leaves). -/
+theorem C01.plincomb_correct (lc : LC K) (h : LCSpec lc) (a b : K) :
+    ∀ (xs ys os : List Nat) (m : Mem K), xs.length = os.length → ys.length = os.length →
+      os.Nodup →
+      (∀ i j (hi : i < os.length) (_hj : j < os.length), i ≠ j →
+          os[i] ≠ xs[j]! ∧ os[i] ≠ ys[j]!) →
+      ∃ m', plincomb lc xs ys os a b m = some m' ∧
+        (∀ k (hk : k < os.length) i, m' os[k] i = a * m xs[k]! i + b * m ys[k]! i) ∧
+        (∀ buf, buf ∉ os → m' buf = m buf) := by
+  intro xs ys os
+  induction os generalizing xs ys with
+  | nil =>
+    intro m hx hy _ _
+    have : xs = [] := List.length_eq_zero_iff.mp hx
+    have : ys = [] := List.length_eq_zero_iff.mp hy
+    subst_vars
+    exact ⟨m, rfl, fun k hk => absurd hk (by simp), fun _ _ => rfl⟩
+  | cons o os ih =>
+    intro m hx hy hnd hdis
+    match xs, ys, hx, hy with
+    | x :: xs, y :: ys, hx, hy =>
+      obtain ⟨m1, e1, s1, f1⟩ := h ⟨x, y, o⟩ a b m
+      have hnd' := List.nodup_cons.mp hnd
+      obtain ⟨m', e, s, f⟩ := ih xs ys m1 (by simpa using hx) (by simpa using hy) hnd'.2
+        (fun i j hi hj hij => by
+          have := hdis (i+1) (j+1) (by simpa using hi) (by simpa using hj) (by omega)
+          simpa using this)
+      refine ⟨m', by simp [plincomb, e1, e], ?_, ?_⟩
+      · intro k hk i
+        cases k with
+        | zero =>
+          simp only [List.getElem_cons_zero, List.getElem!_cons_zero] 
+          rw [f o hnd'.1]; exact s1 i
+        | succ k =>
+          have hk' : k < os.length := by simpa using hk
+          simp only [List.getElem_cons_succ, List.getElem!_cons_succ]
+          rw [s k hk' i]
+          have hd := hdis 0 (k+1) (by simp) hk (by omega)
+          simp only [List.getElem_cons_zero, List.getElem!_cons_succ] at hd
+          rw [f1 _ (Ne.symm hd.1), f1 _ (Ne.symm hd.2)]
+      · intro buf hb
+        have hb' : buf ≠ o ∧ buf ∉ os := by simpa [List.mem_cons, not_or] using hb
+        rw [f buf hb'.2, f1 buf hb'.1]
+
+end
+
+/-- Non-vacuity of the element layer: `x **= 5` on a concrete rational buffer, through the
+extracted tensor `_lincomb`. -/
+example : ∃ m', ipow (K := Rat) (fun A a b m => lincombImpl thrSmall thrMedium fbGuard prog 3 false A a b m)
+    0 1 5 (fun _ i => (i : Rat) + 2) = some m' ∧ m' 0 1 = 243 := by
+  obtain ⟨m', e, s, _⟩ := C01.ipow_correct (K := Rat) _ (C01.tensor_lincomb_spec 3 false) 0 1 (by decide) 5
+    (fun _ i => (i : Rat) + 2)
+  exact ⟨m', e, by rw [s]; norm_num⟩
